@@ -99,8 +99,11 @@ impl<'a> FmtVisitor<'a> {
         let span = mk_sp(start, end);
         let snippet = self.snippet(span);
 
-        // Do nothing for spaces in the beginning of the file
-        if start == BytePos(0) && end.0 as usize == snippet.len() && snippet.trim().is_empty() {
+        // Do nothing for spaces in the beginning of the file. The file does not have to
+        // start at position 0 of the source map (out-of-line modules), and leading empty
+        // lines may have been skipped already.
+        let file_start = self.snippet_provider.start_pos();
+        if self.snippet(mk_sp(file_start, end)).trim().is_empty() {
             return;
         }
 
